@@ -368,7 +368,7 @@ theorem first_n_is_prefix_triebuf (s : State) (k : Key) (n : Nat) (st : Strategy
 theorem first_n_is_prefix_layered (layers : List Dict) (k : List Nat) (n : Nat) (st : Strategy) :
     Layered.lookupFirstN layers k n st = (Layered.lookupAll layers k st).take n := rfl
 
-/-- for `Trie` this needs the final `truncate` of fix 5ab0621 (F11) and the fact that the early
+/-- for `Trie` this needs the final `truncate` of fix 4e93dec (F11) and the fact that the early
     `break` only skips leaves beyond the first n phrases -/
 theorem first_n_is_prefix_trie (t : List Leaf) (q : Key) (n : Nat) (st : Strategy) :
     Trie.lookupFirstN t q n st = (Trie.lookupAll t q st).take n := by
